@@ -80,10 +80,28 @@ its end (`Src.ReplDom`; multi-byte text, any order, overlap, `end < start`): eve
 theorem c17_source_total (s : Src) (h : s.ReplDom) : s.srcC = some s.src := Src.srcC_eq s h
 
 /-- **streaming a tree without CachedSource cannot trap in the checked parts** (raw leaves, map-driven leaves at any depth
-under ConcatSource / ReplaceSource), any store.  PARTIAL: OriginalSource's tokenizer, the combined-map lookup and the position
-bookkeeping of ConcatSource / ReplaceSource are not restated in checked form (they pass through the total model; K4 lives there). -/
-theorem c17_tree_stream_total_partial (s : Src) (o : Opts) (σ : Store) (hn : s.NoCached) (h : s.SizeOK) :
-    s.streamC o σ = some (s.stream o σ) := Src.streamC_eq s o σ hn h
+under ConcatSource / ReplaceSource), any store; `streamC` runs ConcatSource with the crate's saturating column addition (fix F16),
+and `s.NoSat o` says no ConcatSource node of the tree saturates.  PARTIAL: OriginalSource's tokenizer, the combined-map lookup and
+the position bookkeeping of ReplaceSource are not restated in checked form (they pass through the total model; K4 lives there). -/
+theorem c17_tree_stream_total_partial (s : Src) (o : Opts) (σ : Store) (hn : s.NoCached) (h : s.SizeOK) (hs : s.NoSat o) :
+    s.streamC o σ = some (s.stream o σ) := Src.streamC_eq s o σ hn h hs
+
+/-- **the crate's ConcatSource (`saturating_add`, fix F16) is the model's ConcatSource (unbounded addition)** on children that
+report true positions (C02) and whose texts total less than 2 GiB — the bridge between the repaired code and the model every
+other theorem is about -/
+theorem c17_concat_saturation_free (final : Bool) (cs : List SResult) (hp : ∀ c ∈ cs, PosOK c ∧ evsTL c.evs = false)
+    (hlen : 2 * Chk.sumText cs < 2 ^ 32) : Chk.concatStreamS final cs = concatStream final cs :=
+  Chk.concatStreamS_eq_of_posOK final cs hp hlen
+
+/-- **normal mode, trees in the domain of C02**: the checked tree stream — checked splitters, the crate's saturating ConcatSource —
+is the model's stream: nothing traps and nothing saturates -/
+theorem c17_tree_stream_total_normal (s : Src) (c : Bool) (σ : Store) (hn : s.NoCached) (hsz : s.SizeOK) (hw : s.WF)
+    (hp : s.PosHyp c) (hh : s.HalfOK) : s.streamC ⟨c, false⟩ σ = some (s.stream ⟨c, false⟩ σ) :=
+  Src.streamC_eq s ⟨c, false⟩ σ hn hsz (Src.noSat_normal s c hn hw hp hh)
+
+/-- … and it does differ beyond `u32` (a chunk at column `u32::MAX` behind a one-byte sibling) -/
+example : Chk.concatStreamS false [⟨[.chunk (some [97]) ⟨1, 0, none⟩], ⟨1, 1⟩⟩, ⟨[.chunk (some []) ⟨1, 4294967295, none⟩], ⟨1, 1⟩⟩]
+    ≠ concatStream false [⟨[.chunk (some [97]) ⟨1, 0, none⟩], ⟨1, 1⟩⟩, ⟨[.chunk (some []) ⟨1, 4294967295, none⟩], ⟨1, 1⟩⟩] := by decide
 
 /-- … and a CachedSource answering from its cache replays whatever map an earlier call stored through the same splitters -/
 theorem c17_cached_replay_total (id : Nat) (inner : Src) (o : Opts) (σ : Store) (x : Option SMap) (hx : σ.get? (id, o) = some x)
